@@ -478,6 +478,12 @@ impl<E: FieldElement> OpFlags<E> {
         self.degree7_op_flags[get_op_index(Operation::Not.op_code())]
     }
 
+    /// Operation Flag of CLK operation.
+    #[inline(always)]
+    pub fn clk(&self) -> E {
+        self.degree7_op_flags[get_op_index(Operation::Clk.op_code())]
+    }
+
     /// Operation Flag of FMPADD operation.
     #[inline(always)]
     pub fn fmpadd(&self) -> E {
